@@ -406,7 +406,8 @@ Qed.
 Definition loop_finish (old : bool) (cond : expr) (body : stmt) (c3 : ctx) : res out :=
   match prev c3 with
   | None => Panic
-  | Some c1 =>
+  | Some cp =>
+      let c1 := if is_k KNewline cp then cp else c3 in
       match (if is_k KEnd c1 || is_k KElse c1 || is_k KElif c1 then Ok c1 else expect KNewline c1) with
       | Ok c2 => Ok (RS (SLoop cond body) (pop_nl old c2))
       | Err c es => Err c es
@@ -427,10 +428,11 @@ Proof.
   change (is_k KDo (C (TK KLoop :: p) (TK KDo :: ts) ov false)) with true. cbv iota.
   cbn [ok ptry]. unfold statement. rewrite !run_ptry. unfold call_S. cbn [run]. rewrite Hb.
   cbn [get_S run ok ptry]. unfold loop_finish, pexpect.
-  destruct (prev c3) as [cp|]; [|reflexivity]. cbn [run ok ptry].
-  destruct (is_k KEnd cp || is_k KElse cp || is_k KElif cp).
+  destruct (prev c3) as [cp|]; [|reflexivity]. cbn [run ok ptry]. cbv zeta.
+  set (c1 := if is_k KNewline cp then cp else c3).
+  destruct (is_k KEnd c1 || is_k KElse c1 || is_k KElif c1).
   - reflexivity.
-  - cbn [run]. destruct (expect KNewline cp); reflexivity.
+  - cbn [run]. destruct (expect KNewline c1); reflexivity.
 Qed.
 
 (* `loop true do <body>`: the same, with one more token behind the body's starting point *)
@@ -450,10 +452,11 @@ Proof.
   rewrite loop_stop by (left; exact Hdo).
   cbn [get_E run ok ptry]. rewrite !run_ptry. unfold call_S. cbn [run]. rewrite Hb.
   cbn [get_S run ok ptry]. unfold loop_finish, pexpect.
-  destruct (prev c3) as [cp|]; [|reflexivity]. cbn [run ok ptry].
-  destruct (is_k KEnd cp || is_k KElse cp || is_k KElif cp).
+  destruct (prev c3) as [cp|]; [|reflexivity]. cbn [run ok ptry]. cbv zeta.
+  set (c1 := if is_k KNewline cp then cp else c3).
+  destruct (is_k KEnd c1 || is_k KElse c1 || is_k KElif c1).
   - reflexivity.
-  - cbn [run]. destruct (expect KNewline cp); reflexivity.
+  - cbn [run]. destruct (expect KNewline c1); reflexivity.
 Qed.
 
 (* two outcomes that agree up to what lies behind the cursor *)
@@ -473,16 +476,24 @@ Definition prev_smp (c3 c3' : ctx) : Prop :=
   end.
 
 Lemma loop_finish_smp b cond body c3 c3' :
-  prev_smp c3 c3' -> same_out (loop_finish b cond body c3) (loop_finish b cond body c3').
+  same_modulo_pre c3 c3' -> prev_smp c3 c3' ->
+  same_out (loop_finish b cond body c3) (loop_finish b cond body c3').
 Proof.
-  unfold prev_smp, loop_finish. intros H.
+  unfold prev_smp, loop_finish. intros H3 H.
   destruct (prev c3) as [cp|], (prev c3') as [cp'|]; try contradiction; [|exact I].
-  assert (Tk : token cp = token cp') by (unfold token; destruct H as (-> & _); reflexivity).
+  assert (Tp : token cp = token cp') by (unfold token; destruct H as (-> & _); reflexivity).
+  cbv zeta.
+  assert (Ek : is_k KNewline cp' = is_k KNewline cp) by (unfold is_k; rewrite Tp; reflexivity). rewrite Ek.
+  assert (H1 : same_modulo_pre (if is_k KNewline cp then cp else c3) (if is_k KNewline cp then cp' else c3'))
+    by (destruct (is_k KNewline cp); assumption).
+  set (c1 := if is_k KNewline cp then cp else c3) in *.
+  set (c1' := if is_k KNewline cp then cp' else c3') in *.
+  assert (Tk : token c1 = token c1') by (unfold token; destruct H1 as (-> & _); reflexivity).
   unfold is_k, expect, is_k, raise. rewrite <- Tk.
-  destruct (tok_is KEnd (token cp) || tok_is KElse (token cp) || tok_is KElif (token cp)).
-  - split; [reflexivity|]. unfold pop_nl, set_nl. destruct H as (A & B & _). repeat split; assumption.
-  - pose proof (skip_smp 1 _ _ H) as (A & B & D).
-    destruct (tok_is KNewline (token cp)); cbn [same_out].
+  destruct (tok_is KEnd (token c1) || tok_is KElse (token c1) || tok_is KElif (token c1)).
+  - split; [reflexivity|]. unfold pop_nl, set_nl. destruct H1 as (A & B & _). repeat split; assumption.
+  - pose proof (skip_smp 1 _ _ H1) as (A & B & D).
+    destruct (tok_is KNewline (token c1)); cbn [same_out].
     + split; [reflexivity|]. unfold pop_nl, set_nl. repeat split; assumption.
     + repeat split; assumption.
 Qed.
@@ -494,14 +505,14 @@ Theorem loop_do_conditional p ts ov b f body c3 c3' :
   pt_valid T (TK KDo) = false ->
   go T (S (S f)) (QStmt (C (TK KLoop :: p) (TK KDo :: ts) ov false)) = Ok (RS body c3) ->
   go T (S (S f)) (QStmt (C (TBool true :: TK KLoop :: p) (TK KDo :: ts) ov false)) = Ok (RS body c3') ->
-  prev_smp c3 c3' ->
+  same_modulo_pre c3 c3' -> prev_smp c3 c3' ->
   same_out (go T (S (S (S f))) (QStmt (C p (TK KLoop :: TK KDo :: ts) ov b)))
            (go T (S (S (S f))) (QStmt (C p (TK KLoop :: TBool true :: TK KDo :: ts) ov b))).
 Proof.
-  intros Hdo HA HB Hs.
+  intros Hdo HA HB H3 Hs.
   rewrite (loop_do_step p ts ov b (S (S f)) body c3 HA).
   rewrite (loop_true_do_step p ts ov b f body c3' Hdo HB).
-  apply loop_finish_smp. exact Hs.
+  apply loop_finish_smp; assumption.
 Qed.
 
 End Sugar.
